@@ -1,8 +1,9 @@
 #!/bin/sh
 # Build the framework from files on disk only (offline): out-of-tree build of
-# /repo's working tree into the cache and a smoke test of TLC.
+# /repo's working tree into the cache and a smoke test of the TLA+ tools.
 cd "$(dirname "$0")" || exit 2
-set -e
-/venv/bin/python -m mbv.build
-java -XX:+UseParallelGC -cp /opt/veriftools/tla/tla2tools.jar:/opt/veriftools/tla/CommunityModules-deps.jar tla2sany.SANY spec/Solver.tla >/dev/null
+/venv/bin/python -m mbv.build || exit 2
+out=$(java -XX:+UseParallelGC -cp /opt/veriftools/tla/tla2tools.jar:/opt/veriftools/tla/CommunityModules-deps.jar tla2sany.SANY spec/Solver.tla 2>&1)
+if echo "$out" | grep -qi "error"; then echo "$out"; echo "SANY failed"; exit 2; fi
 echo setup-ok
+exit 0
